@@ -8,6 +8,7 @@ mod hookcheck;
 #[cfg(feature = "std-easy")]
 mod io;
 mod json;
+mod lite;
 mod obj;
 mod tgt;
 mod reader;
@@ -135,6 +136,45 @@ bind_scn!(C15Scn, "c15", obj, obj::generate_c15, |p| (p("conv.dirty_destination"
 // a position array rebuilt over earlier content.
 bind_scn!(C17Scn, "c17", tgt, tgt::generate, |p| p("tgt.reinit_stale_bits_possible") > 0 || p("pa.reinit") > 0);
 
+macro_rules! bind_lite {
+    ($name:ident, $tag:literal, $m:ident, $gen:expr) => {
+        pub struct $name;
+        impl Scenario for $name {
+            type Op = $m::Op;
+            fn tag(&self) -> &'static str {
+                $tag
+            }
+            fn generate(&self, seed: u64) -> Vec<$m::Op> {
+                ($gen)(seed)
+            }
+            fn execute(&self, ops: &[$m::Op], verbose: bool) -> Outcome {
+                $m::execute(ops, verbose)
+            }
+            fn op_to_json(&self, op: &$m::Op) -> J {
+                op.to_json()
+            }
+            fn op_from_json(&self, j: &J) -> Result<$m::Op, String> {
+                $m::Op::from_json(j)
+            }
+            fn simplify(&self, op: &$m::Op) -> Vec<$m::Op> {
+                op.simplify()
+            }
+            fn nontrivial(&self, out: &Outcome) -> bool {
+                out.steps >= 3
+            }
+        }
+    };
+}
+// "Lite" variants for the Miri batch (C14.ub_free): same executors, operation
+// lists cut down to a few KiB of hashing per run.
+bind_lite!(C03Lite, "c03l", gen, |s| lite::c03(s, false));
+bind_lite!(C12Lite, "c12l", gen, |s| lite::c03(s, true));
+bind_lite!(C11Lite, "c11l", obj, |s| lite::c11(s, false));
+bind_lite!(C15Lite, "c15l", obj, |s| lite::c11(s, true));
+bind_lite!(C17Lite, "c17l", tgt, lite::c17);
+#[cfg(feature = "std-easy")]
+bind_lite!(IoLite, "iol", io, lite::io);
+
 #[cfg(feature = "std-easy")]
 pub struct IoScn;
 #[cfg(feature = "std-easy")]
@@ -259,13 +299,13 @@ fn replay_cmd(path: &str) -> i32 {
     }
     let tag = doc.gs("scenario").unwrap_or("").to_string();
     let r = match tag.as_str() {
-        "c03" => scn::replay(&C03Scn, &doc),
-        "c12" => scn::replay(&C12Scn, &doc),
-        "c11" => scn::replay(&C11Scn, &doc),
-        "c15" => scn::replay(&C15Scn, &doc),
-        "c17" => scn::replay(&C17Scn, &doc),
+        "c03" | "c03l" => scn::replay(&C03Scn, &doc),
+        "c12" | "c12l" => scn::replay(&C12Scn, &doc),
+        "c11" | "c11l" => scn::replay(&C11Scn, &doc),
+        "c15" | "c15l" => scn::replay(&C15Scn, &doc),
+        "c17" | "c17l" => scn::replay(&C17Scn, &doc),
         #[cfg(feature = "std-easy")]
-        "io" => scn::replay(&IoScn, &doc),
+        "io" | "iol" => scn::replay(&IoScn, &doc),
         t => Err(format!("unknown scenario {}", t)),
     };
     match r {
@@ -304,6 +344,13 @@ fn main() {
             Some("c11") => run_cmd(&C11Scn, &args),
             Some("c15") => run_cmd(&C15Scn, &args),
             Some("c17") => run_cmd(&C17Scn, &args),
+            Some("c03l") => run_cmd(&C03Lite, &args),
+            Some("c12l") => run_cmd(&C12Lite, &args),
+            Some("c11l") => run_cmd(&C11Lite, &args),
+            Some("c15l") => run_cmd(&C15Lite, &args),
+            Some("c17l") => run_cmd(&C17Lite, &args),
+            #[cfg(feature = "std-easy")]
+            Some("iol") => run_cmd(&IoLite, &args),
             #[cfg(feature = "std-easy")]
             Some("io") => run_cmd(&IoScn, &args),
             s => {
@@ -317,6 +364,13 @@ fn main() {
             Some("c11") => dump_cmd(&C11Scn, &args),
             Some("c15") => dump_cmd(&C15Scn, &args),
             Some("c17") => dump_cmd(&C17Scn, &args),
+            Some("c03l") => dump_cmd(&C03Lite, &args),
+            Some("c12l") => dump_cmd(&C12Lite, &args),
+            Some("c11l") => dump_cmd(&C11Lite, &args),
+            Some("c15l") => dump_cmd(&C15Lite, &args),
+            Some("c17l") => dump_cmd(&C17Lite, &args),
+            #[cfg(feature = "std-easy")]
+            Some("iol") => dump_cmd(&IoLite, &args),
             #[cfg(feature = "std-easy")]
             Some("io") => dump_cmd(&IoScn, &args),
             s => {
